@@ -252,7 +252,8 @@ class CostSuite(common.Suite):
         return None
 
     def signature(self, case, desc, prop):
-        return "cost/" + desc.split(":")[0][:40]
+        import re
+        return "cost/" + re.sub(r"[0-9]+", "N", desc.split(":")[0])[:60]
 
     def shrink(self, case):
         if "shape" not in case:
